@@ -6,6 +6,7 @@ import (
 	"github.com/apache/arrow-go/v18/arrow"
 )
 
+//verif:quote approx
 //verif:ints bv
 //verif:unwind 64
 //verif:maxconcretize 40
